@@ -937,9 +937,21 @@ SSHALG = CDH + 'ssh.algorithm:'
 SSH_NAME = st.text(alphabet='abcdefghijklmnopqrstuvwxyz0123456789-@._+', min_size=1, max_size=30)
 
 
+def near_miss_names(known):
+    """Unknown names that sit right next to a known one: a known name with a suffix / a prefix, cut by one
+    character, in another letter case.  A matcher that compares by prefix, by substring or case-insensitively takes
+    them for the known name."""
+    known = sorted(known)
+    variants = st.sampled_from(known).flatmap(lambda name: st.sampled_from([
+        name + '@example.com', name + '-v2', name + 'x', name + '_', name[:-1], name[1:], 'x' + name, name.upper(),
+        name.capitalize(), name + ' ', name + ',' ]))
+    return variants.filter(lambda candidate: candidate and candidate not in known)
+
+
 def ssh_algorithm_items(enum_ref):
     known = {m.value.code for m in lib.resolve(enum_ref)}
-    unknown = st.one_of(SSH_NAME, st.sampled_from(['unknown-alg@example.com', 'x', 'none2', 'a' * 64])).filter(lambda n: n not in known)
+    unknown = st.one_of(SSH_NAME, st.sampled_from(['unknown-alg@example.com', 'x', 'none2', 'a' * 64]),
+                        near_miss_names(known).filter(lambda n: ',' not in n and ' ' not in n)).filter(lambda n: n not in known)
     return st.lists(st.one_of(enum_(enum_ref), enum_(enum_ref), enum_(enum_ref), unknown), max_size=8)
 
 
@@ -1091,9 +1103,12 @@ def _known_extension_names():
 
 @register(SSHKEY + 'SshCertExtensionUnparsed')
 def _cert_extension_unparsed():
-    names = st.one_of(SSH_NAME, st.sampled_from(['verify-required', 'permit-everything@example.com'])).filter(
-        lambda n: n not in _known_extension_names())
-    return obj(SSHKEY + 'SshCertExtensionUnparsed', names, blob(0, 40, 'ba'))
+    names = st.one_of(SSH_NAME, st.sampled_from(['verify-required', 'permit-everything@example.com']),
+                      near_miss_names(_known_extension_names())).filter(lambda n: n not in _known_extension_names())
+    return obj(SSHKEY + 'SshCertExtensionUnparsed', names, st.one_of(st.just({'ba': ''}), blob(0, 40, 'ba'),
+                                                                     ASCII_PRINTABLE.map(lambda t: {'ba': t.encode().hex()}),
+                                                                     # the data of a known option: string(text)
+                                                                     ASCII_PRINTABLE.map(lambda t: {'ba': (len(t).to_bytes(4, 'big') + t.encode()).hex()})))
 
 
 def _cert_option_items(critical):
